@@ -24,6 +24,14 @@ func init() {
 			"correctness of net.IPNet.Contains and ipaddr cursors, ipfamily.ForService.",
 		Run: runC02,
 		Mutants: []Mutant{
+			{Name: "pool-annotation-only-when-absent", File: "controller/service.go",
+				Old: "\tsvc.Annotations[AnnotationIPAllocateFromPool] = pool\n\n\treturn nil",
+				New: "\tif _, ok := svc.Annotations[AnnotationIPAllocateFromPool]; !ok {\n\t\tsvc.Annotations[AnnotationIPAllocateFromPool] = pool\n\t}\n\n\treturn nil", Expect: "annotation-refreshed"},
+			{Name: "family-of-cidr-by-mask-length", File: "internal/ipfamily/ipfamily.go",
+				Old: "\tif cidr.IP.To4() == nil {",
+				New: "\tif len(cidr.Mask) == net.IPv6len {", Expect: "FAMILY-OF"},
+			{Name: "single-family-falls-through-to-policy-switch", File: "internal/allocator/allocation.go",
+				Old: "\tif serviceIPFamily == ipfamily.IPv4 {\n\t\treturn []net.IP{ipv4}, nil", New: "\tif serviceIPFamily == ipfamily.IPv4 && ipv4 != nil {\n\t\treturn []net.IP{ipv4}, nil", Expect: "FAMILY-SELECT"},
 			{Name: "same-ips-ignores-extra-requested", File: "controller/service.go",
 				Old: "\treturn reflect.DeepEqual(ipsA, ipsB)\n", New: "\tfor i := range ipsA {\n\t\tif i >= len(ipsB) || !reflect.DeepEqual(ipsA[i], ipsB[i]) {\n\t\t\treturn false\n\t\t}\n\t}\n\treturn true\n", Expect: "SAME-IPS"},
 			{Name: "namespace-scan-stops-at-first-member", File: "internal/config/config.go",
@@ -86,6 +94,7 @@ func runC02(p *chk.Prog, r *chk.Report) {
 	c02FamilySelect(p, r)
 	c02FirstPoolWins(p, r)
 	cidrContainmentRule(p, r)
+	familyOfRule(p, r)
 }
 
 // c02FirstPoolWins: the pools are tried in priority order; a partial candidate (an allocation that serves only one
@@ -482,7 +491,7 @@ func c02Requests(p *chk.Prog, r *chk.Report) {
 		ag := af.Graph()
 		for _, c := range ag.FindPat("RECV.getFreeIPsFromPool(P, ETC)") {
 			pool := c.Node.(*ast.CallExpr).Args[0]
-			x.Check("AllocateFromPool:draws-from-named-pool", c.Pos(), definedBy(ag, "RECV.pools.ByName[N]", chk.H("N", isParam(af, "poolName")))(pool), "", "AllocateFromPool searches a pool other than the one named")
+			x.Check("AllocateFromPool:draws-from-named-pool", c.Pos(), definedByOrNil(ag, "RECV.pools.ByName[N]", chk.H("N", isParam(af, "poolName")))(pool), "", "AllocateFromPool searches a pool other than the one named")
 		}
 	}
 }
@@ -503,6 +512,30 @@ func c02Annotation(p *chk.Prog, r *chk.Report) {
 		isPool := definedBy(g, "RECV.ips.Pool(K)", chk.H("K", key))
 		x.Check("converge:annotation-source", ws[0].Pos(), isPool(v), "", "the recorded pool annotation does not come from Allocator.Pool(key)")
 		x.Check("converge:annotation-nonempty", ws[0].Pos(), g.Dominated(ws[0], g.GPat(false, `P == ""`, chk.H("P", isPool))), "", "the pool annotation can be written for a service without an owning pool")
+		// refreshed on every successful convergence: the owning pool can change name under an address that stays
+		refreshed := false
+		if vid, isId := ast.Unparen(v).(*ast.Ident); isId && isPool(v) {
+			if rhs, _ := g.DefOf(vid, ws[0]); rhs != nil {
+				w := g.MustPass(g.FactSite(rhs), func(n ast.Node) bool {
+					rs, isRet := n.(*ast.ReturnStmt)
+					return isRet && len(rs.Results) == 1 && f.IsNilLit(rs.Results[0])
+				}, false, func(n ast.Node) bool { return n == ws[0].Top })
+				refreshed = !w.Found
+			}
+		} else if isPool(v) {
+			// c.ips.Pool(key) written in place: from the emptiness test of the same reading
+			for _, ps := range g.FindPat("RECV.ips.Pool(K)", chk.H("K", key)) {
+				if ps.Top == ws[0].Top || !g.Dominated(ws[0], g.GPat(false, `P == ""`, chk.H("P", func(e ast.Expr) bool { return e == ps.Node.(ast.Expr) }))) {
+					continue
+				}
+				w := g.MustPass(ps, func(n ast.Node) bool {
+					rs, isRet := n.(*ast.ReturnStmt)
+					return isRet && len(rs.Results) == 1 && f.IsNilLit(rs.Results[0])
+				}, false, func(n ast.Node) bool { return n == ws[0].Top })
+				refreshed = !w.Found
+			}
+		}
+		x.Check("converge:annotation-refreshed-on-every-success", ws[0].Pos(), refreshed, "", "a convergence can succeed without rewriting the pool annotation (only when it is absent, say): it goes stale when the pool owning the kept address changes")
 	}
 	y := r.Rule("REQUEST-CHANGE", "B path", "in controller.convergeBalancer a requested pool that differs from the owning pool, and requested addresses that differ from the held ones, always reach clearServiceState(key, svc) and reset the held addresses before allocation", 2)
 	clr := func(n ast.Node) bool {
@@ -585,6 +618,11 @@ func c02FamilySelect(p *chk.Prog, r *chk.Report) {
 				case g.Dominated(at, g.GPat(true, "F == V", chk.H("F", fam), chk.H("V", isObjNamed(f, "internal/ipfamily.IPv6")))):
 					x.Check("select:return["+tag+"]:ipv6-service-gets-ipv6", at.Pos(), len(lit.Elts) == 1 && fromFam("IPv6")(lit.Elts[0]), "", "an IPv6 service is given something other than the IPv6 address")
 				default:
+					// a return that is not tied to one family is out of reach for a single-family Service: otherwise an
+					// IPv4-only Service can be handed the pool's IPv6 address (and the other way round)
+					out4 := g.Dominated(at, g.GPat(false, "F == V", chk.H("F", fam), chk.H("V", isObjNamed(f, "internal/ipfamily.IPv4"))))
+					out6 := g.Dominated(at, g.GPat(false, "F == V", chk.H("F", fam), chk.H("V", isObjNamed(f, "internal/ipfamily.IPv6"))))
+					x.Check("select:return["+tag+"]:not-for-single-family-services", at.Pos(), out4 && out6, "", "a return meant for dual-stack Services is reachable for a Service with one cluster-IP family: it can be given an address of the other family")
 					nonNil := true
 					for _, e := range lit.Elts {
 						el := e
